@@ -242,6 +242,8 @@ def harnesses(tier):
     nreq = 3
     for src in (['self', 'offset', 'lower-dim'] if tier == 'quick' else SOURCES):
         for k1 in range(3):
+            if tier == 'quick' and src == 'offset' and k1 != 1:
+                continue          # (the offset/scaled source repeats the cache logic of 'self': one variant in the quick tier)
             hs.append(Harness('cache %s x%d second=%s' % (src, nreq, ['x', 'y', 'mask'][k1]), body_cache,
                               params=dict(source=src, nreq=nreq, r1_kind=k1), validate=10, weight=9, wall_s=1800, max_paths=500000,
                               bounds=dict(reference_shape=(2, 3), source=src, requests=nreq, dim0_options=3, dim1_options=2,
